@@ -226,6 +226,12 @@ def run(ctx):
     for (mp, r, smc, k) in runs:
         ctx.tlc("MC_Batches", "MC_Batches_mp%d_r%d_k%d" % (mp, r, k), cfg_text=mc_cfg(mp, r, smc, k),
                 expect_actions=ACTIONS, timeout=1500)
+    if not ctx.quick:
+        # beyond the exhaustive bounds: random behaviours of larger instances (MaxPar 5, 3 SMC rounds; MaxPar 6 plain)
+        for (mp, r, smc, k, num) in [(5, 3, True, 2, 30000), (6, 1, False, 4, 30000), (4, 2, True, 3, 30000)]:
+            ctx.tlc("MC_Batches", "SIM_Batches_mp%d_r%d_k%d" % (mp, r, k), cfg_text=mc_cfg(mp, r, smc, k, live=False),
+                    simulate="num=%d" % num, depth=120, seed=ctx.seed + 1, workers=8, coverage=False, timeout=900,
+                    label="simulate Batches MaxPar=%d rounds=%d K=%d" % (mp, r, k))
     scs = scenarios(ctx)
     traces = check_scenarios(ctx, scs)
     for i in (0, len(scs) // 2, len(scs) - 1):
